@@ -15,6 +15,65 @@ LEVEL_TEXT = (
 )
 
 
+def check_largest_component(ctx, res):
+    """cc.largest_component returns a maximum-size component of the partition: `max(components, key=len)`, or a sweep
+    whose early exit is sound - the exit test on (len(component), number of nodes) must imply 2 * len >= n (nothing
+    that is left can be larger).  The exit test is tabulated over a grid of (c, n), nothing is executed."""
+    import copy
+
+    from .. import predtab
+
+    res.rules["B-LARGEST"] = "largest_component is a maximum over ALL components; an early exit of the sweep is taken only when the found component cannot be beaten (2*len >= n)"
+    v = ctx.view("cc.largest_component")
+    f = v.fi.short
+    hg = v.fi.params[0].arg if v.fi.params else "hg"
+    rets = [n for n in walk_no_nested(v.fi.node) if isinstance(n, ast.Return) and n.value is not None]
+    whole = [r for r in rets if isinstance(v.inline(r.value), ast.Call) and norm(v.inline(r.value).func) in ("max", "sorted") or (isinstance(v.inline(r.value), ast.Subscript) and isinstance(v.inline(r.value).value, ast.Call) and norm(v.inline(r.value).value.func) == "sorted")]
+    early = [r for r in rets if v.enclosing(r, (ast.For, ast.While)) is not None] + [b for b in walk_no_nested(v.fi.node) if isinstance(b, ast.Break)]
+    for r in whole:
+        e = v.inline(r.value)
+        call = e if isinstance(e, ast.Call) else e.value
+        key = next((k.value for k in call.keywords if k.arg == "key"), None)
+        if norm(call.func) == "max":
+            st = "ok" if key is not None and norm(key) == "len" else ("violation" if key is None else "unknown")
+            res.add("B-LARGEST", f, norm(r), "max-by-len", st, "" if st == "ok" else "the largest component is not chosen by its number of nodes (max without key=len compares the node lists lexicographically)", loc(v.fi, r))
+        else:
+            res.unknown("B-LARGEST", f, norm(r), "max-by-len", "selection through sorted(...) not decided", loc(v.fi, r))
+    for r in early:
+        # the conditions under which this return is taken inside the sweep
+        conds = [i for i in v.enclosing_all(r, (ast.If,)) if v.enclosing(i, (ast.For, ast.While)) is not None]
+        if not conds:
+            res.violation("B-LARGEST", f, norm(r), "early-exit", "the sweep stops at the first component it finds", loc(v.fi, r))
+            continue
+        for i in conds:
+            test = v.inline(i.test)
+
+            class Sym(ast.NodeTransformer):
+                def visit_Call(self, n):
+                    t = norm(n)
+                    if norm(n.func) == "len" and n.args:
+                        inner = norm(n.args[0])
+                        if inner in (f"{hg}.get_nodes()", f"list({hg}.get_nodes())"):
+                            return ast.Name(id="n_", ctx=ast.Load())
+                        return ast.Name(id="c_", ctx=ast.Load())
+                    if t in (f"{hg}.num_nodes()",):
+                        return ast.Name(id="n_", ctx=ast.Load())
+                    return self.generic_visit(n)
+
+            sym = Sym().visit(copy.deepcopy(test))
+            tab = predtab.table(sym, ["c_", "n_"], lo=0, hi=13)
+            if tab is None:
+                res.unknown("B-LARGEST", f, norm(i.test), "early-exit", "the early-exit test is not a comparison of the component size with the number of nodes", loc(v.fi, i))
+                continue
+            bad = sorted((c, n) for (c, n), val in tab.items() if val and 1 <= c <= n and 2 * c < n)
+            res.check(not bad, "B-LARGEST", f, norm(i.test), "early-exit", f"the sweep stops at a component that can still be beaten: e.g. a component of {bad[0][0]} nodes out of {bad[0][1]} passes `{norm(test)}` although the remaining {bad[0][1] - bad[0][0]} nodes may form a larger one" if bad else "", loc(v.fi, i))
+    tracked = [n for n in walk_no_nested(v.fi.node) if isinstance(n, ast.Compare) and len(n.ops) == 1 and isinstance(n.ops[0], (ast.Gt, ast.GtE, ast.Lt, ast.LtE)) and all(isinstance(x, ast.Call) and norm(x.func) == "len" for x in (n.left, n.comparators[0]))]
+    if not whole and tracked:
+        res.ok("B-LARGEST", f, norm(tracked[0]), "max-by-len", loc(v.fi, tracked[0]))
+    if not whole and not early and not tracked:
+        res.unknown("B-LARGEST", f, "max(components, key=len)", "max-by-len", "the selection of the largest component was not recognised", loc(v.fi, v.fi.node))
+
+
 def run(ctx):
     res = Result("C08")
     res.rules.update({k: KIND_RULES[k] for k in ("C-SIG", "K-ARG", "K-KEY-LOCAL", "K-MEM") if k in KIND_RULES})
@@ -157,6 +216,8 @@ def run(ctx):
                         res_mut = True
                 res.add("CC-COVER", f, f"{vis} += component", "mark-visited", "ok" if marked else ("unknown" if vis_mut and not comp_names else "violation"), "" if marked else "the nodes of a found component are not marked visited (components would be reported repeatedly)", loc(v.fi, g))
                 res.add("CC-COVER", f, "components.append(component)", "collect", "ok" if appended else ("unknown" if res_mut and not comp_names else "violation"), "" if appended else "a found component is not added to the result", loc(v.fi, g))
+    with res.guard("B-LARGEST"):
+        check_largest_component(ctx, res)
     # ---- B-START: the start node itself always belongs to the visited set a search returns
     with res.guard("B-START: the start node itself always belongs to the visited set a search returns"):
         res.rules["B-START"] = "a search puts its start node (the node dequeued from a queue seeded with `start`) into the returned set, guarded by nothing but `not in visited`"
